@@ -129,15 +129,15 @@ func (e *Env) CheckRange(k Call, o *ListObs, truth []string, height, count uint6
 	case count > 0 && lo < n && hi == n:
 		c.NonTrivial()
 		c.Class("range-reaches-end")
-		c.NonTrivialItem(k.Method + "/range-reaches-end")
+		c.NonTrivialItem(k.RPCName() + "/range-reaches-end")
 	case count > 0 && n > 0 && height == uint64(n)+1:
 		c.NonTrivial()
 		c.Class("range-starts-after-end")
-		c.NonTrivialItem(k.Method + "/range-starts-after-end")
+		c.NonTrivialItem(k.RPCName() + "/range-starts-after-end")
 	case height >= 1<<31 || count >= 1<<31:
 		c.NonTrivial()
 		c.Class("range-extreme")
-		c.NonTrivialItem(k.Method + "/range-extreme")
+		c.NonTrivialItem(k.RPCName() + "/range-extreme")
 	}
 	if height+count < height {
 		c.Class("range-overflows-64-bits")
@@ -411,20 +411,38 @@ func sortedKeys(m map[types.Hash]bool) []string {
 func mUnreceived(e *Env) {
 	c, v := e.C, e.V
 	addr := e.Addr("unr.addr")
-	truth := sortedKeys(v.Unreceived(addr))
+	must, optional := v.Unreceived(addr)
+	truth := sortedKeys(must)
 	size := GenSize(c, "unr.size", len(truth), unreceivedMaxPageSize)
 	idx := GenIndex(c, "unr.index", len(truth), size)
 	k := Call{"ledger", v.Apis.Ledger, "GetUnreceivedBlocksByAddress", []interface{}{addr, idx, size}}
-	c.Note("%s on %s (%d unreceived)", k, v.Name, len(truth))
+	c.Note("%s on %s (%d unreceived, %d with a pooled receive)", k, v.Name, len(truth), len(optional))
 	a := e.Do(k)
 	if a.Err != "" {
 		e.ErrOK(k, a, size > unreceivedMaxPageSize || idx >= unreceivedMaxPageIndex)
 		return
 	}
 	o := e.ParseList(k, a, idField("hash"))
-	if len(truth) > unreceivedMaxPageSize*unreceivedMaxPageIndex {
+	if len(truth)+len(optional) > unreceivedMaxPageSize*unreceivedMaxPageIndex {
 		// the method looks at the first 500 entries only; nothing exact can be said
 		c.Class("unreceived-over-500")
+		return
+	}
+	if len(optional) > 0 {
+		c.Class("unreceived-with-pooled-receive")
+		if o.Count < int64(len(must)) || o.Count > int64(len(must)+len(optional)) {
+			c.Failf(keyCount, "%s: count=%d, the ledger holds %d unreceived sends (+%d whose receive is pooled)", k, o.Count, len(must), len(optional))
+		}
+		if len(o.IDs) > unreceivedMaxPageSize || (size <= unreceivedMaxPageSize && len(o.IDs) > int(size)) {
+			c.Failf(keyCap, "%s returned %d elements", k, len(o.IDs))
+		}
+		for _, raw := range o.Elems {
+			var b api.AccountBlock
+			_ = json.Unmarshal(raw, &b)
+			if !must[b.Hash] && !optional[b.Hash] {
+				c.Failf(keySlice, "%s returned %v which is not an unreceived send to that address", k, b.Hash)
+			}
+		}
 		return
 	}
 	e.CheckPage(k, o, PageSpec{Truth: truth, Ordered: false, WantCount: int64(len(truth)), Limit: unreceivedMaxPageSize, Index: idx, Size: size})
@@ -1182,7 +1200,7 @@ func (m *embList) walk(e *Env) {
 	if n > int(size) {
 		c.NonTrivial()
 		c.Class("walk-multi-page")
-		c.NonTrivialItem(m.method + "/walk")
+		c.NonTrivialItem(m.name + "/walk")
 	}
 }
 
@@ -1220,9 +1238,10 @@ func walkLedger(e *Env) {
 		}
 	default:
 		addr := e.Addr("lwalk.addr")
-		truth := sortedKeys(v.Unreceived(addr))
+		must, optional := v.Unreceived(addr)
+		truth := sortedKeys(must)
 		limit = unreceivedMaxPageSize
-		if len(truth) > unreceivedMaxPageSize*unreceivedMaxPageIndex {
+		if len(truth) > unreceivedMaxPageSize*unreceivedMaxPageIndex || len(optional) > 0 {
 			return
 		}
 		// order of the mailbox is not documented: the walk must yield every element exactly once
